@@ -283,6 +283,30 @@ func genDecInputs(g *groups.G, rng *kc.Rng, reps int, qrP *big.Int) []decInput {
 		for r := 0; r < 8*reps+8; r++ {
 			add("random-65", decCat([]byte{4}, rng.Bytes(64)))
 		}
+		// Curve points whose x is small enough that x+p still fits in 32 bytes (p is just below 2^256, so a
+		// random point never has one): the unreduced encoding must be rejected, and if it is accepted the
+		// value must still be usable (decUsePoint).
+		cnt := 0
+		for i := int64(0); cnt < 6+reps && i < 4000; i++ {
+			x := big.NewInt(i)
+			if i >= 40 {
+				x = new(big.Int).Rsh(new(big.Int).SetBytes(rng.Bytes(32)), uint(33+rng.Intn(180)))
+			}
+			y2 := new(big.Int).Exp(x, big.NewInt(3), decP256P)
+			y2.Sub(y2, new(big.Int).Mul(big.NewInt(3), x))
+			y2.Add(y2, decP256B)
+			y2.Mod(y2, decP256P)
+			y := new(big.Int).ModSqrt(y2, decP256P)
+			if y == nil {
+				continue
+			}
+			cnt++
+			if cnt%2 == 0 {
+				y.Sub(decP256P, y)
+			}
+			add("small-x-valid", decCat([]byte{4}, decBE(x, 32), decBE(y, 32)))
+			add("coord-plus-p", decCat([]byte{4}, decBE(new(big.Int).Add(x, decP256P), 32), decBE(y, 32)))
+		}
 	case "qr512":
 		if qrP != nil {
 			n := (qrP.BitLen() + 7) / 8
